@@ -12,6 +12,7 @@ import EinoV.Proofs.C02Compile
 import EinoV.Proofs.C02Eager
 import EinoV.Proofs.C02Just
 import EinoV.Proofs.C02Complete
+import EinoV.Proofs.C02Exact
 import EinoV.Gen.FactsC02
 import EinoV.Expected.C02
 import EinoV.Proofs.C02Workflow
@@ -204,6 +205,16 @@ open EinoV.Engine.DagRun in
 theorem dag_enabled_nodes_start {V} (ops : ValOps V) (r : Runner V) (wf : DagWF r) (wf2 : DagWF2 r)
     (sched : Sched V) (hf : sched.Fair) (x : V) : CompTr r x (runS ops r sched x).trace.reverse :=
   run_complete ops r wf wf2 sched hf x
+
+open EinoV.Engine.DagRun in
+/-- **dag_input_is_exact.** In a run of a well-formed acyclic all-predecessor runner (`DagWF`,
+    `DagWF2`) under any fair completion schedule, the input of every task of every step is the
+    zero value, the single value, or the merge of the outputs of *exactly* those data
+    predecessors that completed in older steps and routed to it (`ExactIn`: the list of merged
+    values is, as a set, `{(p, w) | p completed with output w and routed w to the node as data}`). -/
+theorem dag_input_is_exact {V} (ops : ValOps V) (r : Runner V) (wf : DagWF r) (wf2 : DagWF2 r)
+    (sched : Sched V) (hf : sched.Fair) (x : V) : ExactTr ops r x (runS ops r sched x).trace.reverse :=
+  run_exact ops r wf wf2 sched hf x
 
 open EinoV.Engine.DagRun in
 /-- **dag_wf2_check_sound.** The second executable check the oracle evaluates on every generated
